@@ -132,6 +132,8 @@ class Builder:
         cmd = parts[0]
         if cmd == "source":
             self.add_source(parts[1], parts[2])
+        elif cmd in ("default-tags", "tags"):
+            pass  # read by vx.unit.unit_tags
         elif cmd == "include":
             ip = os.path.normpath(os.path.join(self.unit_dir, parts[1]))
             for k, l in enumerate(open(ip).read().split("\n")):
